@@ -472,25 +472,26 @@ open RsslVerif.Spec
 /-- **The common operand type is the one HLSL's usual arithmetic conversions give** — for every binary operator and every
     pair of operand shapes (`bool`, untyped integer / float literal, `int`, `uint`, `half`, `float`, `double`, an enum with
     underlying type `int` or `uint`), in both orders: `bool` is promoted to `int` (also for the six comparisons — `TWO == true`
-    compares `2` with `1`), an enum takes part through its underlying type, `int` meets `uint` as `uint`, an integer meets a
-    float as that float, `&&` / `||` work on `bool`, the bit operators refuse floats; operators of other arms have no
-    common type on either side. `commonTy` is computed from the tables re-extracted on every run (`Gen.TypingTables`:
-    ranks, `require_integer`, short-circuit test; `Gen.BinopTyping`: the bool remap and the operators it applies to).
+    compares `2` with `1`), an enum takes part through its underlying type (`E1M > (int)0` with `E1M = 4294967295u` is an
+    unsigned comparison; `E0C + 1` is done in `int`), `int` meets `uint` as `uint`, an integer meets a float as that float,
+    `&&` / `||` work on `bool`, the bit operators refuse floats; operators of other arms have no common type on either
+    side. `commonTy` is computed from the tables re-extracted on every run (`Gen.TypingTables`: ranks, `require_integer`,
+    short-circuit test; `Gen.BinopTyping`: how an enum operand enters the rank comparison, the bool remap and the operators
+    it applies to).
 
-    *Partial*: the pairs of `deviates` are excluded, on which the pinned code chooses another type —
-    (a) a `uint`-backed enum with `bool` / `int`: converted to `int` instead of `uint`
-        (`binop_common_type_uint_enum_not_as_specified`, a defect: known finding);
-    (b) an untyped integer literal with `bool` / an enum: the typed operand is converted to the literal kind
-        (`binop_common_type_literal_pairs`: no typed kind is ever chosen; the folder has no rule for that conversion and the
-        front end refuses it for enums, so no constant results — observed `notconst` / `reject` on every such case of the run).
-    Two enum operands are taken to be of one enum type (`sameEnum`; operands of different enum types are refused). -/
+    *Partial*: the one pair of `deviates` is excluded, on which the pinned code chooses another type — an untyped integer
+    literal with a `bool`: the `bool` is converted to the literal kind (`binop_common_type_literal_pairs`: no typed kind is
+    ever chosen; the folder has no rule for that conversion, so no constant results — observed `notconst` on every such
+    case of the run). Two enum operands are taken to be of one enum type (`sameEnum`; operands of different enum types are
+    refused). -/
 theorem binop_common_type_as_specified_partial (op : BinOp) (l r : OpShape)
     (hsame : HlslUsualConv.sameEnum l r = true) (hdev : deviates l r = false) :
     commonTy op l r = HlslUsualConv.commonTy op l r :=
   commonTy_table op (binOp_mem_all op) l (shape_mem_all l) r (shape_mem_all r) hsame hdev
 
 /-- non-vacuity: the cases the seeded mutant C13-4 changed (`enum == bool`, `bool < bool`), `int + uint`, `enum + float`,
-    `bool & uint`, `float & int` refused — all inside the hypotheses -/
+    `bool & uint`, `float & int` refused, a `uint`-backed enum next to `int` / `bool`, an enum next to an untyped literal —
+    all inside the hypotheses -/
 example :
     commonTy .equality .enumInt (.scalar .bool) = some (.scalar .int32) ∧
     commonTy .lessThan (.scalar .bool) (.scalar .bool) = some (.scalar .int32) ∧
@@ -499,24 +500,42 @@ example :
     commonTy .bitwiseAnd (.scalar .bool) (.scalar .uInt32) = some (.scalar .uInt32) ∧
     commonTy .bitwiseAnd (.scalar .float32) (.scalar .int32) = none ∧
     commonTy .subtract .enumUInt .enumUInt = some .right ∧
-    deviates .enumInt (.scalar .bool) = false ∧ HlslUsualConv.sameEnum .enumInt (.scalar .bool) = true := by decide
+    commonTy .greaterThan .enumUInt (.scalar .int32) = some (.scalar .uInt32) ∧
+    commonTy .add (.scalar .intLiteral) .enumInt = some (.scalar .int32) ∧
+    deviates .enumInt (.scalar .bool) = false ∧ HlslUsualConv.sameEnum .enumInt (.scalar .bool) = true ∧
+    deviates .enumUInt (.scalar .int32) = false ∧ deviates (.scalar .intLiteral) .enumUInt = false := by decide
 
-/-- **Negation with witnesses** of the full statement on the pinned source: an enum whose underlying type is `uint` is
-    converted to `int` when the other operand is `int` or `bool` (every enum ranks below `bool` in
-    `get_non_vector_conversion_rank`, whatever its underlying type), where the usual arithmetic conversions give `uint`:
-    `E1M > (int)0` with `E1M = 4294967295u` folds to `false`. Replayed on the real compiler (corpus, known finding). -/
-theorem binop_common_type_uint_enum_not_as_specified :
-    commonTy .greaterThan .enumUInt (.scalar .int32) = some (.scalar .int32) ∧
+/-- **An enum operand takes part through its underlying type** — no exception: for every operator, an enum with underlying
+    type `int` or `uint` next to an operand of *any* shape (every scalar kind, untyped literals included, or the same enum),
+    in both orders, gets the type the usual arithmetic conversions give; and next to an operand that is not an enum the
+    code treats it exactly as a value of its underlying type. (Until fix `80dd7f9` this was the negative
+    `binop_common_type_uint_enum_not_as_specified`: every enum ranked below `bool`, so `E1M > (int)0` was a signed
+    comparison, and an enum next to an untyped literal was converted to the literal kind, i.e. refused.) In particular
+    `uint`-backed enum × `int` / `bool` is `uint`, and enum × untyped integer literal is the underlying type. -/
+theorem binop_common_type_enum_operand_as_specified (op : BinOp) (e s : OpShape) (he : e = .enumInt ∨ e = .enumUInt)
+    (hsame : HlslUsualConv.sameEnum e s = true) :
+    commonTy op e s = HlslUsualConv.commonTy op e s ∧ commonTy op s e = HlslUsualConv.commonTy op s e ∧
+    (s.isEnum = false → commonTy op e s = commonTy op e.underlying s ∧ commonTy op s e = commonTy op s e.underlying) := by
+  have hm : e ∈ [OpShape.enumInt, .enumUInt] := by rcases he with h | h <;> simp [h]
+  have h1 := commonTy_enum_table op (binOp_mem_all op) e hm s (shape_mem_all s) hsame
+  exact ⟨h1.1, h1.2, commonTy_enum_underlying_table op (binOp_mem_all op) e hm s (shape_mem_all s)⟩
+
+/-- the former witnesses, now positive: `E1M > (int)0` and `true + E1M` are done in `uint`, as specified; an enum next to an
+    untyped literal is done in the underlying type -/
+example :
+    commonTy .greaterThan .enumUInt (.scalar .int32) = some (.scalar .uInt32) ∧
     HlslUsualConv.commonTy .greaterThan .enumUInt (.scalar .int32) = some (.scalar .uInt32) ∧
-    commonTy .add (.scalar .bool) .enumUInt = some (.scalar .int32) ∧
-    HlslUsualConv.commonTy .add (.scalar .bool) .enumUInt = some (.scalar .uInt32) := by decide
+    commonTy .add (.scalar .bool) .enumUInt = some (.scalar .uInt32) ∧
+    HlslUsualConv.commonTy .add (.scalar .bool) .enumUInt = some (.scalar .uInt32) ∧
+    commonTy .equality .enumUInt (.scalar .intLiteral) = some (.scalar .uInt32) ∧
+    commonTy .leftShift .enumInt (.scalar .intLiteral) = some (.scalar .int32) := by decide
 
-/-- on the literal pairs excluded above the code never chooses a typed kind: the common type is the untyped integer
-    literal kind (or `bool` for `&&` / `||`) -/
-theorem binop_common_type_literal_pairs (op : BinOp) (s : OpShape) (hs : s ∈ [OpShape.scalar .bool, .enumInt, .enumUInt])
-    (t : Target) (h : commonTy op (.scalar .intLiteral) s = some t ∨ commonTy op s (.scalar .intLiteral) = some t) :
+/-- on the pair excluded above (an untyped integer literal with a `bool`) the code never chooses a typed kind: the common
+    type is the untyped integer literal kind (or `bool` for `&&` / `||`) -/
+theorem binop_common_type_literal_pairs (op : BinOp) (t : Target)
+    (h : commonTy op (.scalar .intLiteral) (.scalar .bool) = some t ∨ commonTy op (.scalar .bool) (.scalar .intLiteral) = some t) :
     t = .scalar .intLiteral ∨ (op.shortCircuit = true ∧ t = .scalar .bool) :=
-  commonTy_literal_pairs op (binOp_mem_all op) s hs t h
+  commonTy_literal_bool op (binOp_mem_all op) t h
 
 end CommonType
 
